@@ -82,6 +82,17 @@ mod verif_probe_tracker_history {
         if !w2.is_empty() { failures.push(format!("{}: wasted() handed out {:?} a second time", ctx, w2)); }
     }
 
+    /// the gate is IoU x max(confidence, min_confidence) >= threshold: a weak detection that overlaps well does not continue
+    fn gate_conf(t_iou: f32, dx: f32, conf: f32, expect_continue: bool, failures: &mut Vec<String>) {
+        let mut t = Sort::new(1, 3, 2, IoU(t_iou), 0.05, None, 1.0 / 20.0, 1.0 / 160.0);
+        let a = t.predict_with_scene(1, &[(Universal2DBox::ltwh_with_confidence(0.0, 0.0, 10.0, 20.0, 1.0), None)]);
+        let b = t.predict_with_scene(1, &[(Universal2DBox::ltwh_with_confidence(dx, 0.0, 10.0, 20.0, conf), None)]);
+        let continued = a[0].id == b[0].id;
+        if continued != expect_continue {
+            failures.push(format!("PROBE input: tracker_history gate IoU threshold={} shift={} (IoU {:.3}) detection confidence={}: continued={}, expected {} (gate is IoU x confidence)", t_iou, dx, (10.0 - dx) / (10.0 + dx), conf, continued, expect_continue));
+        }
+    }
+
     fn gate(t_iou: f32, dx: f32, expect_continue: bool, failures: &mut Vec<String>) {
         let mut t = Sort::new(1, 3, 2, IoU(t_iou), 0.05, None, 1.0 / 20.0, 1.0 / 160.0);
         let a = t.predict_with_scene(1, &[(BoundingBox::new(0.0, 0.0, 10.0, 20.0).into(), None)]);
@@ -106,6 +117,10 @@ mod verif_probe_tracker_history {
             gate(t, dx_c, true, &mut failures);
             gate(t, dx_n, false, &mut failures);
         }
+        // IoU 0.667 at shift 2: with confidence 0.9 the weight 0.6 passes 0.5, with confidence 0.6 the weight 0.4 does not
+        gate_conf(0.5, 2.0, 0.9, true, &mut failures);
+        gate_conf(0.5, 2.0, 0.6, false, &mut failures);
+        gate_conf(0.3, 2.0, 0.6, true, &mut failures);
         for f in failures.iter().take(40) { eprintln!("{}", f); }
         assert!(failures.is_empty(), "PROBE found {} failing inputs; first: {}", failures.len(), failures[0]);
     }
